@@ -1,5 +1,5 @@
 ID = "C13"
-N_QUICK = 240
+N_QUICK = 300
 N_THOROUGH = 12000
 MODEL_SHOW = "run"
 DISAGREE_IS_VIOLATION = True   # observables are exactly what the property fixes
@@ -31,8 +31,9 @@ TRUSTED_BASE = [
     "hooks/C13-fix-request-deserialize.patch applied), measured by this correspondence run",
     "Go harness harness/c13: method descriptors derived with package reflect (Kind, Implements, AssignableTo, method order) "
     "and a static list for unexported methods; decode oracle = encoding/json and google.golang.org/protobuf called directly "
-    "into a FRESH value per call; every zoo handler reports a 48-bit FNV-1a token of the canonical rendering of the WHOLE "
-    "argument it was given (all fields; hash collisions are the only way a wrong value could pass); Dispatch layer: real Service + recording peer in a local protoactor system, responses classified by ErrCode and the "
+    "into a FRESH value per call; every zoo handler reports the WHOLE argument it was given as a value token: the canonical "
+    "renderings (all fields; JSON structs via json.Marshal, TestHello incl. unknown-field bytes) met in a case are numbered, "
+    "the same numbering serving oracle and handlers, so equal token <=> equal rendering; Dispatch layer: real Service + recording peer in a local protoactor system, responses classified by ErrCode and the "
     "'no method' prefix of ErrInfo, actor failure observed as *actor.Restarting; bin/check.py JSON->Coq term printer",
     "modelled not verified: package reflect (Method enumeration in name order, Call's assignability check and its panic), "
     "Go maps (as association lists), recover() catching every panic of the handler goroutine, encoding/json and protobuf "
